@@ -366,12 +366,12 @@ func (e *Engine) execAppend(fc *fnCtx, b *ssa.BasicBlock, st *State, c *ssa.Call
 	oarr := sel(H, ref)
 	var elemAt string
 	if isStr {
-		elemAt = "(str.to_code (str.at " + t.T + " j))"
+		elemAt = "(str.to_code (str.at " + t.T + " (- j " + ln + ")))"
 	} else {
-		elemAt = sel(sel(H, "(s_ref "+t.T+")"), "(ix (s_off "+t.T+") j)")
+		elemAt = sel(sel(H, "(s_ref "+t.T+")"), "(ix (s_off "+t.T+") (- j "+ln+"))")
 	}
 	e.sc.assert(implies(st.Reach, "(forall ((j Int)) (! (=> (and (<= 0 j) (< j "+ln+")) (= (select "+narr+" (ix "+off+" j)) (select "+oarr+" (ix "+off+" j)))) :pattern ((select "+narr+" (ix "+off+" j)))))"))
-	e.sc.assert(implies(st.Reach, "(forall ((j Int)) (! (=> (and (<= 0 j) (< j "+tlen+")) (= (select "+narr+" (ix "+off+" (+ "+ln+" j))) "+elemAt+")) :pattern ((select "+narr+" (ix "+off+" (+ "+ln+" j))))))"))
+	e.sc.assert(implies(st.Reach, "(forall ((j Int)) (! (=> (and (<= "+ln+" j) (< j (+ "+ln+" "+tlen+"))) (= (select "+narr+" (ix "+off+" j)) "+elemAt+")) :pattern ((select "+narr+" (ix "+off+" j)))))"))
 	e.setHeapIn(st, hn, hs, store(H, nref, narr))
 	e.logStore(hn, nref)
 	e.note("append with non-constant operand: other elements of a shared backing array are not preserved (havoc)")
